@@ -30,7 +30,9 @@ PROP = dict(
               'Fit.C13.C13_mesg_struct_mesg', 'Fit.C13.C13_struct_mesg_struct', 'Fit.C13.C13_no_panic', 'Fit.C13.C13_unknown_kept',
               'Fit.C13.C13_nil_fieldbase_panics', 'Fit.C13.C13_slot_read_emit', 'Fit.C13.C13_all_messages', 'Fit.C13.C13_mark_as_expanded', 'Fit.C13.C13_spec_valid_is_protocol_valid',
               'Fit.C13.C13_normal_idempotent', 'Fit.C13.C13_normal_is_fixed_point', 'Fit.C13.C13_spec_valid_fixed_arrays',
-              'Fit.C13.C13_mesg_struct_mesg_partial', 'Fit.C13.C13_KF_witnesses', 'Fit.C13.C13_full_is_false'],
+              'Fit.C13.C13_mesg_struct_mesg_partial', 'Fit.C13.C13_KF_witnesses', 'Fit.C13.C13_full_is_false',
+              'Fit.C13.C13_struct_mesg_struct_norm', 'Fit.C13.C13_struct_mesg_struct_partial', 'Fit.C13.C13_inRange_iff', 'Fit.C13.C13_normDoc_fixes',
+              'Fit.C13.C13_struct_class_witnesses', 'Fit.C13.C13_struct_full_is_false', 'Fit.C13.C13_dev_fields_kept', 'Fit.C13.C13_KF3_fixed_witness'],
     families=[dict(name='typed', spec=True)],
     trusted_base=STD_TRUST + [
         "fitharness regen mesgdef: the per-message tables (slot kinds, accepted value type, read/emit field number, default, sentinel, emission order, guard, expanded-bitmap bound, eligible numbers) are obtained from the COMPILED code by reflection over the structs and by probing Reset/ToMesg/MarkAsExpandedField/IsExpandedField with one field per number 0..255 x 24 value types and candidate contents per slot; a behaviour the table cannot express fails the translator",
